@@ -685,6 +685,10 @@ func (fc *FnCtx) unary(st *State, e *ast.UnaryExpr) Term {
 func (fc *FnCtx) addrTaken(st *State, x ast.Expr) {
 	if id, ok := ast.Unparen(x).(*ast.Ident); ok {
 		if obj := fc.info().Uses[id]; obj != nil {
+			if fc.noRetain > 0 {
+				fc.decoded = append(fc.decoded, obj)
+				return
+			}
 			fc.escaped[obj] = true
 		}
 	}
